@@ -701,6 +701,10 @@ fn explore_crashes(rng: &mut Rng, out: &mut Out, rec: &Arc<Recorder>, w: &Worklo
                 } else if (others >> (i % 60)) & 1 == 1 { Fate::Applied } else { Fate::Lost }
             })));
             variants.push(("last-only".into(), Box::new(move |i, n| if i + 1 == n { Fate::Applied } else { Fate::Lost })));
+            // the write issued last is torn the other way round - its first 512-byte sector still holds the old bytes,
+            // the rest is new (an old block head over a new body: nothing but a durable intent makes recovery ignore it)
+            let keep_old = 1 + (tseed >> 20) as usize % 3;
+            variants.push(("torn-last".into(), Box::new(move |i, n| if i + 1 == n { Fate::Torn((0..4096).map(|j| j >= keep_old).collect()) } else { Fate::Applied })));
             // reordering + tearing at block granularity: the last write (typically the journal slot)
             // lands, of every earlier un-synced write only the blocks after the first do
             variants.push(("last+tails".into(), Box::new(move |i, n| if i + 1 == n { Fate::Applied } else { Fate::Torn((0..4096).map(|j| j >= 8).collect()) })));
@@ -732,6 +736,11 @@ fn explore_crashes(rng: &mut Rng, out: &mut Out, rec: &Arc<Recorder>, w: &Worklo
                 Err(e) => {
                     out.count("recover-failed");
                     out.fail("C03", format!("crash image does not reopen ({}) — crash after event {} of the device trace, un-synced writes: {}", e, upto, vname), &keep);
+                    // with something acknowledged before the crash, a file that cannot be reopened has lost it
+                    let acked = win.values().filter(|(a, _)| *a > 0).count();
+                    if acked > 0 {
+                        out.fail("C02", format!("{} keys were acknowledged by flush() before the crash, but the crash image does not reopen ({}) — crash after event {} of the device trace, un-synced writes: {}", acked, e, upto, vname), &keep);
+                    }
                     if e.contains("get of recovered key failed") {
                         // recovery indexed the key and then made its record unreadable: its own repair writes hit a live record
                         out.fail("C04", format!("recovery damaged a record it had just indexed ({}) — crash after event {} of the device trace, un-synced writes: {}", e, upto, vname), &keep);
